@@ -117,11 +117,19 @@ def case(arg):
                 if not same and not X.first_value_kind(kn) and b != "seq":
                     continue
                 before = L.observe(l)
+                repend = False
+                if same and rng.random() < 0.35 and b not in ("integ",) and not b.startswith("lnd"):
+                    # a retry: the told point is marked pending again, then its (same) result arrives once more
+                    l.tell_pending(p)
+                    repend = True
+                    bump("repend_then_retell")
                 for ll in r.ls:
                     ll.tell(p, v)
                 r.told_last[k] = v
                 if same or X.first_value_kind(kn):
                     after = L.observe(l)
+                    if before != after and repend and X.pend_key(kn, p) in X.pending_keys(kn, l):
+                        return fail("retold_point_still_pending", f"the told point {p!r} was marked pending again and told again, it is still pending")
                     if before != after:
                         d = [kk for kk in before if before[kk] != after[kk]]
                         return fail("retell_noop", f"telling the known point {p!r} again ({'same' if same else 'different'} value) changed {d}")
@@ -190,7 +198,10 @@ def run(ctx):
             aborted[r["kind"] + ":" + r["aborted"]] = aborted.get(r["kind"] + ":" + r["aborted"], 0) + 1
         if r["fail"]:
             cl, det = r["fail"]
-            failures.append({"clause": cl, "signature": f"C10.{cl}.{r['kind']}", "detail": det,
+            sig = f"C10.{cl}.{r['kind']}"
+            if cl == "retold_point_still_pending" and r["kind"].split(":")[-1] == "avg":
+                sig = "C10.retold_point_still_pending:AverageLearner"
+            failures.append({"clause": cl, "signature": sig, "detail": det,
                              "replay": {"kind": r["kind"], "seed": r["seed"], "nops": r["nops"]}})
     return core.conclude(
         ctx, proof, [], failures,
